@@ -345,11 +345,20 @@ func l1Addr(name string) string {
 	return a
 }
 
+func l1Bridge(id uint64) string {
+	a, err := bech32.ConvertAndEncode("init", ophosttypes.BridgeAddress(id))
+	if err != nil {
+		panic(err)
+	}
+	return a
+}
+
 func c12Info(client string) opchildtypes.BridgeInfo {
 	cfg := world.BridgeConfig("proposer", "challenger", 10*time.Second)
 	cfg.Proposer, cfg.Challenger, cfg.BatchInfo.Submitter = l1Addr("proposer"), l1Addr("challenger"), l1Addr("submitter")
 	cfg.OracleEnabled = true
-	return opchildtypes.BridgeInfo{BridgeId: 1, BridgeAddr: sdk.AccAddress(ophosttypes.BridgeAddress(1)).String(), L1ChainId: "l1-verif", L1ClientId: client, BridgeConfig: cfg}
+	// the bridge address is an L1 address: spelled with L1's prefix, which the L2's own codec cannot decode
+	return opchildtypes.BridgeInfo{BridgeId: 1, BridgeAddr: l1Bridge(1), L1ChainId: "l1-verif", L1ClientId: client, BridgeConfig: cfg}
 }
 
 func (s *c12L2State) anExecutor() string {
@@ -576,7 +585,9 @@ func (y *c12L2Sys) Check(s *c12L2State) *engine.Violation {
 		}{
 			{"same", func(i *opchildtypes.BridgeInfo) {}, true},
 			{"bridge-id", func(i *opchildtypes.BridgeInfo) { i.BridgeId = 2 }, false},
-			{"bridge-addr", func(i *opchildtypes.BridgeInfo) { i.BridgeAddr = sdk.AccAddress(ophosttypes.BridgeAddress(2)).String() }, false},
+			{"bridge-addr", func(i *opchildtypes.BridgeInfo) { i.BridgeAddr = l1Bridge(2) }, false},
+			{"bridge-addr-in-l2-spelling-of-another-bridge", func(i *opchildtypes.BridgeInfo) { i.BridgeAddr = sdk.AccAddress(ophosttypes.BridgeAddress(2)).String() }, false},
+			{"bridge-addr-garbage", func(i *opchildtypes.BridgeInfo) { i.BridgeAddr = "not an address at all" }, false},
 			{"l1-chain-id", func(i *opchildtypes.BridgeInfo) { i.L1ChainId = "other-chain" }, false},
 			{"l1-client-id", func(i *opchildtypes.BridgeInfo) { i.L1ClientId = "07-tendermint-9" }, s.info.L1ClientId == ""},
 			{"config-only", func(i *opchildtypes.BridgeInfo) { i.BridgeConfig.OracleEnabled = !i.BridgeConfig.OracleEnabled }, true},
